@@ -33,6 +33,13 @@ CHUNK = 4
 CHAIN_KINDS = ["ref", "arr", "inl", "arrinl", "map", "oneof", "anyof", "allof"]
 
 
+def finalize(cases, results, tier, seed):
+    for r in results:
+        if r.get("tlc"):
+            return {"tlc": r["tlc"], "traces_accepted_by_model_environment": sum(1 for x in results if not x.get("tlc"))}
+    return {}
+
+
 def cases(tier, seed):
     out = []
 
@@ -60,8 +67,9 @@ def cases(tier, seed):
                 out.append({"kind": "chain", "edge": k, "named": True, "depth": depth, "L": L})
                 if k != "ref":
                     out.append({"kind": "chain", "edge": k, "named": False, "depth": depth, "L": L})
+    out.append({"kind": "tlc", "names": ["User", "UserGroup", "UserGroupItem"], "max_depth": 2, "max_frames": 2 if tier == "quick" else 3, "L": None})
     # long-running chain cases first (tail latency), then dedupe
-    out = [c for c in out if c["kind"] == "chain"][::-1] + [c for c in out if c["kind"] != "chain"]
+    out = [c for c in out if c["kind"] == "tlc"] + [c for c in out if c["kind"] == "chain"][::-1] + [c for c in out if c["kind"] == "graph"]
     seen = set()
     uniq = []
     for c in out:
@@ -220,8 +228,68 @@ def final_checks(mon, ir, doc, ucd):
     return out
 
 
+def discipline_violation(events):
+    """The recorded enter/exit sequence must be a path of the environment automaton of mc/tla/CycleTracker.tla
+    (frames with modes body / mustexit / fallthrough). `existing` may be followed by one exit (registered) or by
+    exit + body + exit (not registered): simulated nondeterministically. Returns None or a description."""
+    configs = {()}
+    for i, (kind, name, action) in enumerate(events):
+        nxt = set()
+        for fr in configs:
+            top = fr[-1] if fr else None
+            if kind == "E":
+                if top is not None and top[1] != "body":
+                    continue  # an enter while the parser owes the balancing exit of the frame on top
+                if action == "continue":
+                    nxt.add(fr + ((name, "body"),))
+                elif action in ("placeholder", "create"):
+                    nxt.add(fr + ((name, "mustexit"),))
+                elif action == "existing":
+                    nxt.add(fr + ((name, "mustexit"),))
+                    nxt.add(fr + ((name, "fallthrough"),))
+            else:
+                if top is None or top[0] != name:
+                    continue  # exit of a name that is not the innermost open frame
+                if top[1] in ("body", "mustexit"):
+                    nxt.add(fr[:-1])
+                else:
+                    nxt.add(fr[:-1] + ((name, "body"),))
+        if not nxt:
+            return f"event #{i} {kind}({name}{',' + action if action else ''}) is not enabled in any environment state; prefix {[list(e) for e in events[max(0, i - 4):i + 1]]}"
+        configs = nxt
+    if () not in configs:
+        return f"open frames remain at the end: {sorted(configs)[:2]}"
+    return None
+
+
+def run_tlc_case(case):
+    from ..kernel import worker_scratch
+    from ..tla import conform
+
+    r = conform.check(case["names"], case["max_depth"], case["max_frames"], worker_scratch(), workers=2)
+    label = f"tlc|names={case['names']}|MaxDepth={case['max_depth']}|MaxFrames={case['max_frames']}"
+    found = []
+    if r.get("error"):
+        raise HarnessError(r["error"])
+    if not r["tlc"]["ok"]:
+        found.append({"sig": "C08|tlc|TLC reports an invariant violation of the tracker model (rest state / depth)", "key": label, "msg": r["tlc"]["output_tail"][-800:]})
+    for m in r.get("mismatches", [])[:3]:
+        found.append({"sig": "C08|tlc-conformance|a model transition disagrees with the real unified_enter_schema/unified_exit_schema", "key": label, "msg": m})
+    seen = set()
+    found = [f for f in found if not (f["sig"] in seen or seen.add(f["sig"]))]
+    return {"findings": found, "nontrivial": label, "states": r.get("graph_states", 0), "transitions": r.get("edges", 0), "validated": r.get("distinct_edges_replayed", 0),
+            "outcome": "tlc:" + ("finding" if found else "conforms"),
+            "tlc": {"states": r.get("graph_states"), "edges": r.get("edges"), "distinct_edges_replayed_on_impl": r.get("distinct_edges_replayed"),
+                    "mismatches": r.get("mismatch_count"), "invariants": ["TypeOK", "RestInv", "DepthNonNeg"], "tlc_ok": r["tlc"]["ok"],
+                    "config": {"names": case["names"], "MaxDepth": case["max_depth"], "MaxFrames": case["max_frames"]}},
+            "sample": {"tlc": label, "states": r.get("graph_states"), "edges": r.get("edges"), "replayed": r.get("distinct_edges_replayed")}}
+
+
 def run_case(case):
     import pyopenapi_gen.core.parsing.unified_cycle_detection as ucd
+
+    if case["kind"] == "tlc":
+        return run_tlc_case(case)
 
     if case["kind"] == "graph":
         doc = graphs.doc_of(case)
@@ -247,6 +315,9 @@ def run_case(case):
         pass
     for clause, disc, detail in mon.violations:
         add(clause, disc, detail)
+    dv = discipline_violation(mon.events)
+    if dv:
+        add("discipline", "the parser's enter/exit sequence is not a path of the tracker model's environment (unbalanced enter/exit)", dv)
     if ir is not None:
         for clause, disc, detail in final_checks(mon, ir, doc, ucd):
             add(clause, disc, detail)
